@@ -1,5 +1,6 @@
 import Clikit.Drv.Util
 import Clikit.Model.Builder
+import Clikit.Model.Flatten
 namespace Clikit.Drv.C06
 open Lean Clikit.Drv Clikit.ArgsFmt
 
@@ -184,6 +185,44 @@ def runCfg (ps : List Query) : List CfgLevel → Option FormatRec → List Json
       Json.mkObj [("adds", .arr c.2.toArray), ("build", .str "ok"), ("f", snapF ps f)]
         :: runCfg ps ls (some f)
 
+/-! `c06.flatten`: the flattened view (`Model/Flatten.lean`, `flattenRec`) of the model's formats of a
+case, restricted to what the builder model carries: command names with aliases, argument names with
+required / multi in listing order, option long / short names in listing order.  The harness compares it
+with `parser_common.flatten(real_format)` restricted to the same attributes. -/
+
+def jFlat (f : FormatRec) : Json :=
+  let fl := Clikit.Flatten.flattenRec Clikit.Flatten.plainArg Clikit.Flatten.plainOpt f
+  Json.mkObj [
+    ("cmds", jList (fun (c : Clikit.Parser.CmdName) =>
+      Json.mkObj [("name", jStr c.name), ("aliases", jStrs c.aliases)]) fl.cmds),
+    ("args", jList (fun (a : Clikit.Parser.Arg) =>
+      Json.mkObj [("name", jStr a.name), ("required", .bool a.required), ("multi", .bool a.multi)]) fl.args),
+    ("opts", jList (fun (o : Clikit.Parser.Opt) =>
+      Json.mkObj [("long", jStr o.long), ("short", jOpt jStr o.short)]) fl.opts)]
+
+/-- the flattened base formats, innermost first (until the first rejected level) -/
+def flatBases : List (List Elem) → Option FormatRec → List Json
+  | [], _ => []
+  | es :: rest, base =>
+    match ctor es base with
+    | .ok f => jFlat f :: flatBases rest (some f)
+    | .error _ => []
+
+/-- the flattened `builder.format` after every call of the history -/
+def flatSteps : Builder → List Op → List Json
+  | _, [] => []
+  | b, op :: ops =>
+    let r := step b op
+    jFlat (format r.1) :: flatSteps r.1 ops
+
+def flatCfg : List CfgLevel → Option FormatRec → List Json
+  | [], _ => []
+  | l :: ls, base =>
+    let c := cfgAdds (Builder.empty none) l.adds
+    match buildArgsFormat c.1 l base with
+    | .error _ => []
+    | .ok f => jFlat f :: flatCfg ls (some f)
+
 def handle (m : String) (j : Json) : Option (R Json) :=
   match m with
   | "c06.run" => some do
@@ -220,6 +259,30 @@ def handle (m : String) (j : Json) : Option (R Json) :=
                          ("ill_formed", jList (fun e => match e with
                             | Elem.opt o => jNat o.tag | .copt c => jNat c.tag | _ => jNat 0)
                             (es.filter (fun e => !e.wfB)))]
+  | "c06.flatten" => some do
+      -- the flattening the bridge theorems of Props/C06.lean are about, on the formats of the case
+      match (← fStr j "kind") with
+      | "config" =>
+        let levels ← many parseCfgLevel j "levels"
+        return Json.mkObj [("levels", .arr (flatCfg levels none).toArray)]
+      | kind =>
+        let bases ← parseBases j
+        let fb := Json.arr (flatBases bases none).toArray
+        match buildBases bases none 0 with
+        | .error _ => return Json.mkObj [("bases", fb)]
+        | .ok base =>
+          match kind with
+          | "run" =>
+            let ops ← many parseOp j "ops"
+            let b0 := Builder.empty base
+            return Json.mkObj [("bases", fb), ("init", jFlat (format b0)),
+                               ("steps", .arr (flatSteps b0 ops).toArray)]
+          | "ctor" =>
+            let es ← many parseElem j "elements"
+            match ctor es base with
+            | .error _ => return Json.mkObj [("bases", fb), ("f", .null)]
+            | .ok f => return Json.mkObj [("bases", fb), ("f", jFlat f)]
+          | k => .error s!"c06.flatten: unknown kind {k}"
   | _ => none
 
 end Clikit.Drv.C06
